@@ -229,6 +229,15 @@ class VoronoiGrid(DiscreteSpace):
                 self._cells[i].connect(self._cells[j], (i, j))
                 self._cells[j].connect(self._cells[i], (j, i))
 
+        # an edge between two centroids is a Delaunay edge also when every triangle
+        # it belongs to has a corner of the bounding frame as third vertex
+        # (e.g. a grid of only two centroids)
+        for triangle in self.triangulation.triangles:
+            for i, j in combinations(triangle, 2):
+                if i > 3 and j > 3:
+                    self._cells[i - 4].connect(self._cells[j - 4], (i - 4, j - 4))
+                    self._cells[j - 4].connect(self._cells[i - 4], (j - 4, i - 4))
+
     def _validate_parameters(self) -> None:
         if self.capacity is not None and not isinstance(self.capacity, float | int):
             raise ValueError("Capacity must be a number or None.")
